@@ -15,10 +15,13 @@ from ..core.canon import canon, exc_obs, jsonable
 def gen_aranges(r):
     little = r.random() < 0.7
     bo = 'little' if little else 'big'
-    asz = r.choice([4, 8])
     nsets = r.choice([1, 1, 2, 3, 4])
+    # every set states its own address size; the size the file-level structs were made for is a separate, unrelated fact
+    asz0 = r.choice([4, 8])
+    set_asz = [asz0 if r.random() < 0.7 else r.choice([4, 8]) for _ in range(nsets)]
+    structs_asz = asz0 if r.random() < 0.5 else r.choice([4, 8])
     # disjoint ranges over the whole table
-    maxa = (1 << (8 * asz)) - 1
+    maxa = (1 << (8 * min(set_asz))) - 1
     n = r.choice([0, 1, 2, 3, 5, 8, 12])
     cur = r.choice([0, 1, 0x1000, r.getrandbits(16)])
     ranges = []
@@ -43,7 +46,7 @@ def gen_aranges(r):
     out = bytearray()
     model = []
     info = 0
-    for tuples in sets:
+    for tuples, asz in zip(sets, set_asz):
         info_off = info
         info += r.choice([11, 100, 4096, r.getrandbits(12) + 12])
         start = len(out)
@@ -63,7 +66,7 @@ def gen_aranges(r):
         out[start:start + 4] = ul.to_bytes(4, bo)
         for a, ln in tuples:
             model.append((a, ln, info_off, ul, 2, asz, 0))
-    return dict(kind='aranges', little=little, asz=asz, data=bytes(out).hex(), model=model)
+    return dict(kind='aranges', little=little, asz=max(set_asz), structs_asz=structs_asz, data=bytes(out).hex(), model=model)
 
 
 def gen_pub(r):
@@ -121,7 +124,7 @@ def execute(t, viol):
     from elftools.dwarf.structs import DWARFStructs
     data = bytes.fromhex(t['data'])
     stream = SimStream(data, 'table')
-    structs = DWARFStructs(little_endian=t['little'], dwarf_format=32, address_size=t.get('asz', 8))
+    structs = DWARFStructs(little_endian=t['little'], dwarf_format=32, address_size=t.get('structs_asz', t.get('asz', 8)))
     log = []
     if t['kind'] == 'aranges':
         from elftools.dwarf.aranges import ARanges
